@@ -332,45 +332,38 @@ class AnnotationsItem:
 
     def __attrs_post_init__(self) -> None:
         def translate(path: str) -> str:
-            # pylint: disable=too-many-branches
             blocks = []
-            escaping = False
-            globstar = False
-            prev_char = ""
-            for char in path:
+            index = 0
+            length = len(path)
+            while index < length:
+                char = path[index]
                 if char == "\\":
-                    if prev_char == "\\" and escaping:
-                        escaping = False
-                        blocks.append("\\\\")
-                    else:
-                        escaping = True
+                    # The next character, whatever it is, is literal.
+                    index += 1
+                    if index < length:
+                        blocks.append(re.escape(path[index]))
+                    index += 1
                 elif char == "*":
-                    if escaping:
-                        blocks.append(re.escape("*"))
-                        escaping = False
-                    elif prev_char == "*" and not globstar:
-                        globstar = True
-                        blocks.append(r".*")
-                elif char == "/":
-                    if not globstar:
-                        if prev_char == "*":
-                            blocks.append("[^/]*")
-                        blocks.append("/")
-                    escaping = False
-                else:
-                    if prev_char == "*" and not globstar:
+                    end = index
+                    while end < length and path[end] == "*":
+                        end += 1
+                    if end - index == 1:
                         blocks.append(r"[^/]*")
+                    elif path[end : end + 1] == "/":
+                        # '**/' also matches zero directories.
+                        blocks.append(r"(?:.*/)?")
+                        end += 1
+                    else:
+                        blocks.append(r".*")
+                    index = end
+                else:
                     blocks.append(re.escape(char))
-                    globstar = False
-                    escaping = False
-                prev_char = char
-            if prev_char == "*" and not globstar:
-                blocks.append(r"[^/]*")
+                    index += 1
             result = "".join(blocks)
-            return f"^({result})$"
+            return f"({result})"
 
         self._paths_regex = re.compile(
-            "|".join(translate(path) for path in self.paths)
+            "|".join(translate(path) for path in self.paths), re.DOTALL
         )
 
     @classmethod
@@ -393,7 +386,7 @@ class AnnotationsItem:
         """Determine whether *path* matches any of the paths (or path globs) in
         :class:`AnnotationsItem`.
         """
-        return bool(self._paths_regex.match(path))
+        return bool(self._paths_regex.fullmatch(path))
 
 
 @attrs.define
